@@ -2,7 +2,8 @@
 (classes Class(ID, Derived_Attribute), Other_Class(ID, Class_ID), Assoc(One_ID, Other_ID); R1 linked
 reflexive Class-Class via Assoc with phrases 'one'/'other'; R2 Other_Class -> Class; functions,
 operations, bridges LOG/ARCH/TIM, enumeration My_Enum, constant PI).  One statement per line,
-canonical layout.  flags: p = reads param.P1/P2, s = uses self."""
+canonical layout.  flags: p = reads param.P1/P2, s = uses self,
+b = reads the bridge parameter param.message (bridge home only)."""
 
 P = []
 
@@ -280,4 +281,34 @@ for each kk in ks
 end for;
 k2 = k;
 ls2 = ls;
+''')
+prog('bridge_values', '''
+t = TIM::current_clock();
+d = TIM::create_date(second: 1, minute: 2, hour: 3, day: 4, month: 5, year: 2000);
+s = TIM::get_second(date: d) + TIM::get_minute(date: TIM::current_date());
+LOG::LogTime(t: t, message: "now");
+LOG::LogInteger(message: s);
+LOG::LogReal(r: 1.5, message: "r");
+ARCH::shutdown();
+''')
+prog('bridge_params', '''
+x = param.message;
+LOG::LogSuccess(message: param.message + "!");
+if param.message == "stop"
+  return;
+end if;
+''', 'b')
+prog('relate_phrase_simple', '''
+create object instance c of Class;
+create object instance o of Other_Class;
+relate c to o across R2.'has';
+unrelate c from o across R2.'has';
+''')
+prog('set_operators', '''
+select many cs from instances of Class;
+select many ds from instances of Class where (selected.ID == 1);
+us = cs | ds;
+ns = cs & ds;
+ms = cs - ds;
+n = cardinality us + cardinality (cs | ds);
 ''')
